@@ -492,11 +492,17 @@ def body_bytes(raw):
 
 # =========================================================================== the implementation side
 class Conn:
-    def __init__(self):
+    """recording connection number `idx`; every connection of a case appends to one shared `log` as well, so that
+    the order of the messages across connections is kept"""
+
+    def __init__(self, idx=0, log=None):
+        self.idx = idx
         self.sent = []
+        self.log = log if log is not None else []
 
     def sendMessage(self, m):
         self.sent.append(m)
+        self.log.append((self.idx, m))
 
 
 ERR_TEXT = {'Invalid Property': 'unknownProp', 'Property is not readable': 'notReadable',
@@ -506,8 +512,9 @@ ERR_TEXT = {'Invalid Property': 'unknownProp', 'Property is not readable': 'notR
 class Obs:
     """one message seen on the connection, decoded"""
 
-    def __init__(self, m):
+    def __init__(self, m, conn=0):
         from txdbus import message
+        self.conn = conn               # index of the connection (= of the DBusObjectHandler) it was sent on
         raw = m.rawMessage
         pm = message.parseMessage(raw, [])
         self.kind = type(pm).__name__
@@ -582,8 +589,13 @@ class Impl:
         self.case = case
         self.decl_lines = []       # what the driver should have answered to the declaration lines
         self.failed = None         # 'typeerror' | 'declerr'
-        self.conn = Conn()
+        self.log = []
+        self.conn = Conn(0, self.log)
         self.handler = objects.DBusObjectHandler(self.conn)
+        # further handlers (each with its own connection): case['nh'] of them in all; operations reach them
+        # through ['via', h, op]
+        self.handlers = [self.handler] + [objects.DBusObjectHandler(Conn(k, self.log))
+                                          for k in range(1, case.get('nh', 1))]
         self.objs = []
         self.serial = 100
         self.warm = warm
@@ -691,13 +703,17 @@ class Impl:
         self.inst_cls = [self.node_cls[n] for n in case['inst']]
 
     def _take(self, n0):
-        out = [Obs(m) for m in self.conn.sent[n0:]]
+        out = [Obs(m, c) for c, m in self.log[n0:]]
         return out
 
     def run_op(self, op):
         """-> (line in driver vocabulary, list of Obs, raised?)"""
         from txdbus import message, marshal
-        n0 = len(self.conn.sent)
+        n0 = len(self.log)
+        handler = self.handler
+        if op[0] == 'via':
+            handler = self.handlers[op[1]]
+            op = op[2]
         kind = op[0]
         if kind == 'new':
             # (class families only) instance op[1] of its class comes into being
@@ -721,12 +737,21 @@ class Impl:
         if kind == 'export':
             exc = False
             try:
-                self.handler.exportObject(self.objs[op[1]])
+                handler.exportObject(self.objs[op[1]])
             except Exception:
                 exc = True
             # third component (for the oracle): the object is NOT reachable afterwards
-            gone = self.handler.exports.get(self.paths[op[1]]) is not self.objs[op[1]]
+            gone = handler.exports.get(self.paths[op[1]]) is not self.objs[op[1]]
             return ('raised' if exc else 'done'), [], gone
+        if kind == 'unexport':
+            exc = False
+            try:
+                handler.unexportObject(self.paths[op[1]])
+            except Exception:
+                exc = True
+            # third component (for the oracle): the handler STILL holds the object
+            held = handler.exports.get(self.paths[op[1]]) is self.objs[op[1]]
+            return ('raised' if exc else 'done'), [], held
         if kind == 'assign':
             raised = False
             try:
@@ -753,7 +778,7 @@ class Impl:
         pm = message.parseMessage(mc.rawMessage, [])
         pm.sender = ':1.9'
         try:
-            self.handler.handleMethodCallMessage(pm)
+            handler.handleMethodCallMessage(pm)
         except Exception as e:
             obs = self._take(n0)
             return 'crash ' + hx(type(e).__name__), obs, True
@@ -847,20 +872,32 @@ class Oracle:
         self.val = {}
         self.wseq = {}
         self.seq = 0
-        self.exported = set()
+        self.seen = {}           # observations that are not judged (statistics)
+        self.on = {}             # o -> handlers that hold the object now
+        self.ever = {}           # o -> handlers that ever held it (exportObject returned)
 
     def flag(self, key, what, idx, observed, expected):
         self.viol.append((key, what, idx, observed, expected))
 
     # ---- helpers
-    def collide_partner(self, o, i, p, got=None):
-        """another declared property whose interface+name concatenation equals i+p and which was written on the
-        same instance after the last write to (i, p): a failure on (i, p) is then reported under the collision
-        key (the statement keeps (interface, property) pairs apart)"""
+    def collide_partner(self, o, i, p, got=None, failed=None):
+        """another declared property whose interface+name concatenation equals i+p, written on the same instance
+        after the last write to (i, p), AND whose value explains what was seen: a wrong value `got` is the partner's
+        value; a failed Get / GetAll (`failed` = the error reply) is one that is not a lookup / access error while the
+        partner holds a value that is not of (i, p)'s declared type.  Only then is the failure reported under the
+        collision key (the statement keeps (interface, property) pairs apart); any other failure keeps its own key."""
         mine = self.wseq.get((o, i, p), -1)
         for (i2, p2) in sorted(self.props):
             if (i2, p2) != (i, p) and i2 + p2 == i + p and self.wseq.get((o, i2, p2), -1) > mine:
-                return (i2, p2)
+                st2 = self.val.get((o, i2, p2))
+                if st2 is None or st2[0] != 'v':
+                    continue
+                if got is not None and got == st2[1]:
+                    return (i2, p2)
+                if failed is not None and err_cat(failed) not in ('unknownProp', 'unknownIface', 'notReadable',
+                                                                  'unknownObject') \
+                        and not has_type(self.props[(i, p)]['sig'], st2[1]):
+                    return (i2, p2)
         return None
 
     def wrote(self, o, i, p, state):
@@ -898,6 +935,13 @@ class Oracle:
     def expect_signals(self, idx, o, obs, want):
         """want: None or (iface, pname, tagged)"""
         sigs = [x for x in obs if x.kind == 'SignalMessage']
+        ever = self.ever.get(o, set())
+        if any(x.conn not in ever for x in sigs):
+            # whatever an assignment emits leaves on a connection the object was exported on
+            self.flag('changed-signal-wrong-connection', 'a signal caused by an assignment to object %d is sent on a '
+                      'connection the object was never exported on' % o, idx,
+                      sorted(set(x.conn for x in sigs)), sorted(ever))
+            return
         if want is None:
             if sigs:
                 self.flag('changed-signal-unexpected', 'a signal is emitted by an assignment that must emit none',
@@ -908,6 +952,10 @@ class Oracle:
                 and x.path == '/o%d' % o and isinstance(x.value, list) and len(x.value) == 3 and x.value[0] == i
                 and isinstance(x.value[1], list) and len(x.value[1]) == 1 and x.value[1][0][0] == p
                 and py_equal(x.value[1][0][1][2], v) and x.value[2] == []]
+        if len(good) == 1:
+            k = ('PropertiesChanged sent on a handler that holds the object' if good[0].conn in self.on.get(o, ())
+                 else 'PropertiesChanged sent on a handler that no longer holds the object (where is not judged)')
+            self.seen[k] = self.seen.get(k, 0) + 1
         if len(sigs) != 1 or len(good) != 1:
             self.flag('changed-signal-missing' if not sigs else 'changed-signal-wrong',
                       'assigning (%s, %s), declared to emit change notifications, must emit exactly one '
@@ -918,11 +966,19 @@ class Oracle:
     def step(self, idx, op, obs, raised):
         if not self.judged:
             return
+        h = 0
+        if op[0] == 'via':            # the operation goes through handler op[1]
+            h, op = op[1], op[2]
         kind = op[0]
         o = op[1]
         if kind == 'export':
             if not raised:            # = the handler really holds the object now
-                self.exported.add(o)
+                self.on.setdefault(o, set()).add(h)
+                self.ever.setdefault(o, set()).add(h)
+            return
+        if kind == 'unexport':
+            if not raised:            # = the handler does not hold the object any more
+                self.on.get(o, set()).discard(h)
             return
         if kind == 'assign':
             ip = self.attr.get(op[2])
@@ -936,23 +992,35 @@ class Oracle:
                 return
             v = plain(v)
             self.wrote(o, i, p, ('v', v, 'local'))
-            if raised and o not in self.exported:
+            live = bool(self.on.get(o))
+            if not self.ever.get(o):
+                # never exported: the object has no connection, nothing can be emitted anywhere
+                if any(x.kind == 'SignalMessage' for x in obs):
+                    self.flag('changed-signal-wrong-connection', 'assigning a property of object %d, which was never '
+                              'exported, sends a signal' % o, idx,
+                              sorted(set(x.conn for x in obs if x.kind == 'SignalMessage')), [])
+            if raised and not live:
                 self.wrote(o, i, p, ('?',))        # what a raising statement left behind is not specified
                 return
-            if o in self.exported:
+            # (an object unexported from every handler: whether and where it still emits is not in the statement)
+            if live:
                 if raised:
                     self.flag('assign-raises', 'assigning a value of the declared type raises', idx, 'raised', 'stored')
                     self.val[(o, i, p)] = ('?',)
                     return
                 self.expect_signals(idx, o, obs, (i, p, v) if ent['e'] == 't' else None)
             return
-        if o not in self.exported:
+        if h not in self.on.get(o, ()):
             return
         replies = [x for x in obs if x.kind in ('MethodReturnMessage', 'ErrorMessage')]
         if len(replies) != 1:
             self.flag('reply-count', 'a Properties call must be answered exactly once', idx, len(replies), 1)
             return
         rep = replies[0]
+        if rep.conn != h:
+            self.flag('reply-wrong-connection', 'the reply to a Properties call leaves on another connection than '
+                      'the one the call arrived on', idx, rep.conn, h)
+            return
         ok = rep.kind == 'MethodReturnMessage'
         iface = op[2]
         if kind == 'set':
@@ -1007,7 +1075,7 @@ class Oracle:
             if st is None or st[0] != 'v':
                 return
             if not ok:
-                cp = self.collide_partner(o, iface, p)
+                cp = self.collide_partner(o, iface, p, failed=rep)
                 if cp:
                     self.flag('property-storage-key-collision',
                               'Get of (%s, %s) fails; (%s, %s) is declared too and interface+name is %r for both'
@@ -1044,7 +1112,7 @@ class Oracle:
             if not ok:
                 if may:
                     pass                  # a property declared neither readable nor writeable: not judged
-                elif any(self.collide_partner(o, iface, p) for p in must):
+                elif any(self.collide_partner(o, iface, p, failed=rep) for p in must):
                     if all_known:
                         self.flag('property-storage-key-collision', 'GetAll(%s) fails; a property of it shares '
                                   'interface+name with another declared property' % iface, idx, rep.error_name,
@@ -1531,7 +1599,7 @@ def run_oracle_stream(ctx, stream, cases, warm, seen):
 # The oracle is the ordinary one, one per instance, reading the declarations of the instance's OWN class chain: what
 # an object answers depends on its class's MRO and on the values assigned to it, not on which other classes were
 # used before.
-FAMILY_SHAPES = {'chain2': [-1, 0], 'chain3': [-1, 0, 1], 'fork': [-1, 0, 0], 'fork-deep': [-1, 0, 1, 1],
+FAMILY_SHAPES = {'single': [-1], 'chain2': [-1, 0], 'chain3': [-1, 0, 1], 'fork': [-1, 0, 0], 'fork-deep': [-1, 0, 1, 1],
                  'fork-chain': [-1, 0, 1, 0]}
 CHAIN_SHAPES = ['chain2', 'chain2', 'chain3']
 TREE_SHAPES = ['fork', 'fork', 'fork-deep', 'fork-chain']
@@ -1612,7 +1680,7 @@ def gen_family_tree(rng, shape, unstable=False):
         if j == 0:
             k = 0 if rng.random() < 0.8 else rng.randrange(n)      # usually the base class declares something
         elif j == 1:
-            k = rng.randrange(1, n)                                # a derived class declares something of its own
+            k = rng.randrange(1, n) if n > 1 else 0                # a derived class declares something of its own
         else:
             k = rng.randrange(n)
         owners.append(k)
@@ -1780,6 +1848,118 @@ def gen_family_case(rng, shape, unstable=False):
     return {'tree': tree, 'inst': inst, 'nobj': nobj, 'ctor': True, 'ops': ops, 'shape': shape, 'kind': kind}
 
 
+HANDLER_PLANS = {
+    # what happens to the binding object <-> handler, step by step: E<h> exportObject on handler h, U<h>
+    # unexportObject, J a value that cannot be sent is assigned (the next export fails), R it is repaired
+    'h0': ['E0'], 'h1': ['E1'], 'h0-h1': ['E0', 'E1'], 'h1-h0': ['E1', 'E0'], 'twice': ['E0', 'E0'],
+    'both-unexport-last': ['E0', 'E1', 'U1'], 'both-unexport-first': ['E0', 'E1', 'U0'],
+    're-export': ['E0', 'U0', 'E0'], 'moved': ['E0', 'U0', 'E1'], 'twice-unexport': ['E1', 'E1', 'U1'],
+    'failed-second': ['E0', 'J', 'E1', 'R'], 'failed-second-then-ok': ['E1', 'J', 'E0', 'R', 'E0'],
+    'never': [],
+}
+
+
+def gen_handlers_case(rng):
+    """G6 of notes/STATE_AUDIT.md: TWO DBusObjectHandlers (two connections) in one scenario.  Every object follows a
+    plan of HANDLER_PLANS (exported on one handler, on both in either order, twice on one, unexported from the first /
+    the last, re-exported, moved, a failed second export, never exported); the plans of the objects are interleaved
+    and between the steps properties are assigned (where does PropertiesChanged go, how many) and Get / Set / GetAll
+    arrive through either handler."""
+    shape = rng.choice(['single', 'single', 'chain2', 'chain3', 'fork'])
+    tree = gen_family_tree(rng, shape)
+    for c in tree:
+        for f in c['ifaces']:
+            if f['props'] and rng.random() < 0.8:
+                f['props'][0][2], f['props'][0][3], f['props'][0][4] = True, True, 't'
+    n = len(tree)
+    depth = [len(tree_chain_idx(tree, k)) for k in range(n)]
+    nobj = rng.choice([2, 2, 3])
+    inst = [rng.randrange(n) for _ in range(nobj)]
+    if n > 1 and rng.random() < 0.7:
+        inst[0], inst[1] = 0, rng.randrange(1, n)          # an object of the base class and one of a class below
+        rng.shuffle(inst)
+    infos = [family_info(tree, k) for k in range(n)]
+    pairs = {}
+    for k in range(n):
+        for a, i, p, q in infos[k]:
+            pairs.setdefault((i, p), q)
+    pairs = sorted(pairs.items())
+    ops = []
+    order = sorted(range(nobj), key=lambda o: (depth[inst[o]], o))
+    order = rng.choice([order, order[::-1], rng.sample(range(nobj), nobj)])
+    for o in order:
+        ops.append(['new', o])
+        pre = rng.random() < 0.3
+        if not pre:
+            ops.append(['init', o])
+        for a, i, p, q in infos[inst[o]]:
+            ops.append(['assign', o, a, good_value(rng, q[1])])
+        if pre:
+            ops.append(['init', o])
+    plans = {o: rng.choice(sorted(HANDLER_PLANS)) for o in range(nobj)}
+    if all(not HANDLER_PLANS[pl] for pl in plans.values()):
+        plans[0] = 'h0-h1'
+    queue = {o: list(HANDLER_PLANS[plans[o]]) for o in range(nobj)}
+    junk = {}
+
+    def probe():
+        o = rng.randrange(nobj)
+        own = infos[inst[o]]
+        r = rng.random()
+        if r < 0.45 and own:
+            emitting = [x for x in own if x[3][4] == 't']
+            a, i, p, q = rng.choice(emitting if emitting and rng.random() < 0.7 else own)
+            if (o, a) in junk:
+                return
+            ops.append(['assign', o, a, good_value(rng, q[1])])
+            return
+        if rng.random() < 0.2 and pairs:
+            (i, p), q = rng.choice(pairs)
+        elif own:
+            a, i, p, q = rng.choice(own)
+        else:
+            return
+        h = rng.randrange(2)
+        z = rng.random()
+        if z < 0.45:
+            ops.append(['via', h, ['get', o, i, p]])
+        elif z < 0.8:
+            v = plain(good_value(rng, q[1]))
+            wt = wire_type_for(rng, v, prefer=q[1])
+            if wt is not None:
+                ops.append(['via', h, ['set', o, i, p, v, wt]])
+        else:
+            ops.append(['via', h, ['getall', o, i]])
+
+    while any(queue.values()):
+        o = rng.choice([x for x in queue if queue[x]])
+        st = queue[o].pop(0)
+        if st[0] == 'E':
+            ops.append(['via', int(st[1]), ['export', o]])
+        elif st[0] == 'U':
+            ops.append(['via', int(st[1]), ['unexport', o]])
+        elif st == 'J':
+            cands = [x for x in infos[inst[o]] if x[3][2] and x[3][1] not in ('b',)]
+            if cands:
+                a, i, p, q = rng.choice(cands)
+                junk[(o, a)] = q
+                ops.append(['assign', o, a, ['N']])
+        elif st == 'R':
+            for (o2, a), q in sorted(junk.items()):
+                if o2 == o:
+                    ops.append(['assign', o, a, good_value(rng, q[1])])
+                    del junk[(o2, a)]
+        for _ in range(rng.choice([0, 1, 1, 2, 3])):
+            probe()
+    for _ in range(rng.randrange(4, 14)):
+        if rng.random() < 0.15:
+            ops.append(['via', rng.randrange(2), [rng.choice(['export', 'unexport']), rng.randrange(nobj)]])
+        else:
+            probe()
+    return {'tree': tree, 'inst': inst, 'nobj': nobj, 'nh': 2, 'ctor': True, 'ops': ops, 'shape': shape,
+            'kind': 'stable' if family_stable(tree) else 'unstable', 'plans': [plans[o] for o in range(nobj)]}
+
+
 def enc_family(case):
     """driver lines of a one-chain family: the declarations, `family`, then the history with `new <o> <level>`"""
     classes, levels = tree_as_chain(case)
@@ -1841,14 +2021,17 @@ def run_family_case(case, warm=True):
                 stats['new:raised'] = 1
                 break                  # declarations the classes cannot bind: nothing further is defined
             continue
-        orcs[op[1]].step(idx, op, obs, raised)
-        k = op[0] + ':' + coarse(line).split(' | ')[-1].split(' ')[0]
+        bop = op[2] if op[0] == 'via' else op
+        orcs[bop[1]].step(idx, op, obs, raised)
+        k = bop[0] + ':' + coarse(line).split(' | ')[-1].split(' ')[0]
         stats[k] = stats.get(k, 0) + 1
         ret = ret or line.startswith('ret') or ' | ret' in line
-        asg = asg or (op[0] == 'assign' and not raised)
+        asg = asg or (bop[0] == 'assign' and not raised)
     viol = []
     for oc in orcs:
         viol.extend(oc.viol)
+        for k, n in oc.seen.items():
+            stats[k] = stats.get(k, 0) + n
     return dict(impl=out, viol=viol, judged=all(oc.judged for oc in orcs), nontrivial=ret and asg, stats=stats)
 
 
@@ -1879,7 +2062,7 @@ def run_family(ctx, stream, cases, seen, with_model=True):
     spans = []
     all_lines = []
     for c in cases:
-        if with_model and tree_as_chain(c) is not None and not c.get('unwarmed'):
+        if with_model and tree_as_chain(c) is not None and not c.get('unwarmed') and 'nh' not in c:
             lines, nd = enc_family(c)
             spans.append((len(all_lines), len(lines), nd))
             all_lines.extend(lines)
@@ -1907,6 +2090,8 @@ def run_family(ctx, stream, cases, seen, with_model=True):
         ctx.stat('%s %s' % (stream, 'warmed' if warm else 'not-warmed'))
         for k in sorted(family_order_stats(c)):
             ctx.stat('%s order: %s' % (stream, k))
+        for pl in c.get('plans', []):
+            ctx.stat('%s plan=%s' % (stream, pl))
         if sp is not None and out is not None:
             a, n, nd = sp
             ml = out[a:a + n]
@@ -2049,6 +2234,8 @@ def run(ctx):
     corpus = [c for _, c in ctx.corpus()]
     corpus = [c.get('input', c) for c in corpus]
     fam = [c for c in corpus if 'tree' in c]
+    run_family(ctx, 'two-handlers', [c for c in fam if 'nh' in c], seen, False)
+    fam = [c for c in fam if 'nh' not in c]
     run_family(ctx, 'class-family', [c for c in fam if tree_as_chain(c) is not None and not c.get('unwarmed')], seen)
     run_family(ctx, 'class-tree', [c for c in fam if tree_as_chain(c) is None or c.get('unwarmed')], seen, False)
     corpus = [c for c in corpus if 'tree' not in c]
@@ -2097,11 +2284,16 @@ def run(ctx):
             c['unwarmed'] = True        # no walk of the class caches when an instance is created
         cases.append(c)
     run_family(ctx, 'class-tree', cases, seen, False)
+    # ---- two DBusObjectHandlers in one scenario (oracle only): export on both / unexport / re-export / failed export
+    n = ctx.scale(quick=250, thorough=3000)
+    run_family(ctx, 'two-handlers', [gen_handlers_case(ctx.rng) for _ in range(n)], seen, False)
 
 
 def replay(ctx, data):
     case = data.get('input', data)
-    if 'tree' in case:
+    if 'tree' in case and 'nh' in case:
+        run_family(ctx, 'two-handlers', [case], set(), False)
+    elif 'tree' in case:
         chain = tree_as_chain(case) is not None and not case.get('unwarmed')
         run_family(ctx, 'class-family' if chain else 'class-tree', [case], set(), chain)
     elif 'siblings' in case:
